@@ -28,11 +28,50 @@ def _quant(eng, st, lo, hi, fn, is_forall):
         raise TypeError("forall/exists needs a lambda")
     k = z3.Int(V.fresh_name("q"))
     lo_, hi_ = eng._int(eng.as_sym(lo)), eng._int(eng.as_sym(hi))
-    body = _truth(eng, st, eng.call_closure(fn.d, [V.vint(k)], {}, st))
+    eng.quant_depth = getattr(eng, "quant_depth", 0) + 1
+    try:
+        body = _truth(eng, st, eng.call_closure(fn.d, [V.vint(k)], {}, st))
+    finally:
+        eng.quant_depth -= 1
     rng = z3.And(k >= lo_, k < hi_)
+    pats = index_patterns(body, k)
     if is_forall:
-        return V.vbool(z3.ForAll([k], z3.Implies(rng, body)))
-    return V.vbool(z3.Exists([k], z3.And(rng, body)))
+        return V.vbool(z3.ForAll([k], z3.Implies(rng, body), patterns=pats) if pats
+                       else z3.ForAll([k], z3.Implies(rng, body)))
+    return V.vbool(z3.Exists([k], z3.And(rng, body), patterns=pats) if pats
+                   else z3.Exists([k], z3.And(rng, body)))
+
+
+def _mentions(t, k, cache):
+    i = t.get_id()
+    if i in cache:
+        return cache[i]
+    r = z3.eq(t, k) or any(_mentions(c, k, cache) for c in t.children())
+    cache[i] = r
+    return r
+
+
+def index_patterns(body, k, limit=6):
+    """Triggers for a quantifier over a sequence index: every array read `A[k]` (A not
+    mentioning k) is an alternative single-term pattern, so any ground read of A instantiates
+    the quantifier.  Falls back to z3's own choice when there is none."""
+    cache = {}
+    found = {}
+    seen = set()
+    stack = [body]
+    while stack:
+        t = stack.pop()
+        if t.get_id() in seen:
+            continue
+        seen.add(t.get_id())
+        if z3.is_quantifier(t):
+            continue
+        if z3.is_select(t) and z3.eq(t.arg(1), k) and not _mentions(t.arg(0), k, cache):
+            found[t.get_id()] = t
+        stack.extend(t.children())
+    pats = list(found.values())
+    pats.sort(key=lambda t: t.sexpr())
+    return pats[:limit]
 
 
 def sp_forall(eng, st, lo, hi, fn):
@@ -49,6 +88,8 @@ def sp_SEC(eng, st, ticks, bpm, res):
 
 def sp_TDF(eng, st, f):
     """TD(f): microseconds of timedelta(seconds=f) (assumed library contract)."""
+    if getattr(eng, "quant_depth", 0):
+        return V.vtd(floats.TDf(eng._num(eng.as_sym(f))))
     return V.vtd(eng.ctx.fm.td(eng._num(eng.as_sym(f))))
 
 
@@ -91,6 +132,8 @@ def sp_U(eng, st):
 
 
 def sp_RN(eng, st, x):
+    if getattr(eng, "quant_depth", 0):
+        return V.vreal(floats.RNf(eng._num(eng.as_sym(x))))
     return V.vreal(eng.ctx.fm.rn(eng._num(eng.as_sym(x))))
 
 
@@ -140,15 +183,17 @@ def sp_sorted_ticks(eng, st, be):
 
 
 def gov_z3(eng, tick, n, t):
-    g = GOV(tick, n, t)
-    key = ("gov", tick.get_id(), n.get_id(), t.get_id())
+    """GOV(tick, n, t) = the largest k < n with tick[k] <= t.  Defined (one universally
+    quantified axiom per tick array, triggered on GOV terms) whenever tick[0] <= t."""
+    key = ("gov", tick.get_id(), n.get_id())
     if key not in eng.ctx.spec_cache:
         eng.ctx.spec_cache[key] = True
-        k, j = z3.Int(V.fresh_name("gk")), z3.Int(V.fresh_name("gj"))
-        body = z3.And(0 <= g, g < n, tick[g] <= t,
-                      z3.ForAll([j], z3.Implies(z3.And(g < j, j < n), tick[j] > t)))
-        eng.ctx.axioms.append(z3.ForAll([k], z3.Implies(z3.And(0 <= k, k < n, tick[k] <= t), body)))
-    return g
+        tt, j = z3.Int(V.fresh_name("gt")), z3.Int(V.fresh_name("gj"))
+        g = GOV(tick, n, tt)
+        body = z3.And(0 <= g, g < n, tick[g] <= tt,
+                      z3.ForAll([j], z3.Implies(z3.And(g < j, j < n), tick[j] > tt)))
+        eng.ctx.axioms.append(z3.ForAll([tt], z3.Implies(z3.And(n >= 1, tick[0] <= tt), body), patterns=[g]))
+    return GOV(tick, n, t)
 
 
 def sp_gov(eng, st, be, t):
@@ -160,7 +205,7 @@ def ts_z3(eng, be, t, register_td=True):
     tick, ts, bpm, idx, n, res = _be_parts(be)
     g = gov_z3(eng, tick, n, t)
     sec = SEC(t - tick[g], bpm[g], res)
-    td = eng.ctx.fm.td(sec) if register_td else floats.TDf(sec)
+    td = eng.ctx.fm.td(sec) if (register_td and not getattr(eng, "quant_depth", 0)) else floats.TDf(sec)
     return ts[g] + td
 
 
